@@ -145,7 +145,7 @@ Proof. exact old_protocol_dropped_heap. Qed.
    bytecode/src/heap/mod.rs, the standard pipelines have the shape the theorem assumes, and
    compile_internal stops at the stage called "vm" *)
 Theorem model_matches_source :
-  heap_clone_is_empty = true /\ compiled_outputs_are_cached = false /\ cache_key_components_delimited = true /\ cacheable_stages_stateless = true /\ compile_break_name = "vm" /\
+  heap_clone_is_empty = true /\ compiled_outputs_are_cached = false /\ cache_key_components_delimited = true /\ vm_stage_fresh_vm_per_run = true /\ cacheable_stages_stateless = true /\ compile_break_name = "vm" /\
   shape_ok standard_stages = true /\ shape_ok compilation_stages = true /\ shape_ok modules_stages = true.
 Proof. vm_compute. repeat split. Qed.
 
